@@ -20,6 +20,15 @@ type SpecCtx struct {
 	depth      int
 	inBody     bool // evaluated at a program point inside the body: names denote current local cells
 	quantDepth int
+	cellSt     *State // state whose local cells names denote (always the current program point, also inside old())
+	inOld      bool   // inside old()/at(): parameters denote entry values, other locals their current value
+}
+
+func (c *SpecCtx) cells() *State {
+	if c.cellSt != nil {
+		return c.cellSt
+	}
+	return c.st
 }
 
 func (x *Exec) specCtx(st *State, li *loopInfo) *SpecCtx {
@@ -51,6 +60,9 @@ func (c *SpecCtx) with(vars map[string]*Val) *SpecCtx {
 
 func (c *SpecCtx) inState(st *State) *SpecCtx {
 	n := *c
+	if n.cellSt == nil {
+		n.cellSt = c.st
+	}
 	n.st = st
 	return &n
 }
@@ -440,7 +452,7 @@ func (x *Exec) localCell(c *SpecCtx, name string) (*ssa.Alloc, bool) {
 			if c.li != nil && c.li.blocks[b] && !c.inBody {
 				continue
 			}
-			if _, live := c.st.cells[a]; !live {
+			if _, live := c.cells().cells[a]; !live {
 				continue
 			}
 			if best == nil || a.Pos() > best.Pos() {
@@ -464,9 +476,11 @@ func (x *Exec) specIdent(c *SpecCtx, name string) (*Val, error) {
 		return &Val{K: VScalar, T: &Term{Op: "$nil", S: "Nil"}}, nil
 	}
 	if c.locals {
-		if c.li != nil || c.inBody || (strings.HasPrefix(name, "rangeindex") && len(name) > len("rangeindex")) {
+		if _, isParam := x.params[name]; c.inOld && isParam {
+			// parameter inside old(): its entry value (below)
+		} else if c.li != nil || c.inBody || (strings.HasPrefix(name, "rangeindex") && len(name) > len("rangeindex")) {
 			if a, ok := x.localCell(c, name); ok {
-				v := c.st.cells[a]
+				v := c.cells().cells[a]
 				if v.Typ == nil {
 					v = retype(v, a.Type().(*types.Pointer).Elem())
 				}
@@ -495,6 +509,12 @@ func (x *Exec) specIdent(c *SpecCtx, name string) (*Val, error) {
 	}
 	if v, ok := c.st.ghost[name]; ok {
 		return v, nil
+	}
+	if name == "perm" || name == "perminv" {
+		if v, ok := c.st.ghost["$"+name]; ok {
+			return v, nil
+		}
+		return nil, fmt.Errorf("`%s` is only defined after a sort.Slice call", name)
 	}
 	if name == "lastkey" {
 		if v, ok := c.st.ghost["$lastkey"]; ok {
